@@ -35,6 +35,16 @@ theorem threshold_irrelevant (E : Engines) (valid : List UInt8 → Prop) (h : En
     rw [hybrid_threshold_irrelevant E valid h t t' r data hd]
   · rfl
 
+/-- **files and match ranges of a whole shard**: for a shard all of whose documents (contents and names) are valid, the
+    list of per-document candidate matches — hence the set of returned files (the documents with a non-empty list) and
+    every match range — is the same under any two thresholds. -/
+theorem shard_results_threshold_irrelevant (E : Engines) (valid : List UInt8 → Prop) (h : EnginesAgree E valid)
+    (t t' : Int) (r : Re) (fileName : Bool) (docs : List (List UInt8)) (hd : ∀ d ∈ docs, valid d) :
+    docs.map (regexpMatches E t r fileName) = docs.map (regexpMatches E t' r fileName) := by
+  apply List.map_congr_left
+  intro d hdm
+  exact threshold_irrelevant E valid h t t' r fileName d (hd d hdm)
+
 /-- … and under any two *environment values*, well-formed or not. -/
 theorem env_irrelevant (E : Engines) (valid : List UInt8 → Prop) (h : EnginesAgree E valid)
     (v v' : Option (List Char)) (r : Re) (fileName : Bool) (data : List UInt8) (hd : valid data) :
